@@ -264,6 +264,11 @@ def exccounter(tree, v):
     names = _exc_arg_names(ex)
     inc = _is_call_stmt('self._counter.inc()')
     guards = [s for s in ex.body if isinstance(s, ast.If) and any(inc(x) for x in s.body)]
+    # exactly one `self._counter.inc()` in the whole method, and its guard has no elif/else: a second counting path
+    # (e.g. looking into the leaves of an exception group) is a different test
+    n_inc = sum(1 for x in ast.walk(ex) if isinstance(x, ast.Expr) and inc(x))
+    if n_inc > 1: raise Fail('ExceptionCounter.__exit__ increments on %d paths' % n_inc)
+    if any(g.orelse for g in guards): raise Fail('ExceptionCounter.__exit__: the counting test has an elif/else branch')
     if any(inc(s) for s in ex.body):
         v['excTest'] = 'always'
         test = None
